@@ -545,7 +545,7 @@ def run_check(tier, seed):
     for i in range(60 if tier == 'quick' else 600):
         try:
             try:
-                hyps = [g.term(B, 2) for _ in range(r.choice([0, 1, 2]))]
+                hyps = [g.term(B, 2) for _ in range(r.choice([0, 1, 2, 2, 3]))]
                 th = Thm(g.term(B, 3), *hyps)
                 th.check_thm_type()
             except RecursionError:
@@ -553,12 +553,27 @@ def run_check(tier, seed):
             except Exception as e:
                 run.stat('gen_thm:' + type(e).__name__)
                 continue
-            for uni in (False, True):
-                with global_setting(unicode=uni, highlight=False, line_length=None):
-                    s = flat(printer.print_thm(th))
-                th2 = parser.parse_thm(s)
-                if th2 != th:
-                    run.violation('property', 'sequent round trip differs: %s' % s[:120], dict(thm=sstr(th), printed=s, reparsed=sstr(th2)), key='C07:thm-roundtrip')
+            # every printer configuration, twice (what was printed before must not matter), then the parts of the sequent on
+            # their own: hypotheses, conclusion, and the sequent with its first hypothesis only
+            parts = [th] + ([Thm(th.prop, th.hyps[0])] if th.hyps else [])
+            for rnd in (0, 1):
+                for uni in (False, True):
+                    for hl in (False, True):
+                        for th_ in parts:
+                            with global_setting(unicode=uni, highlight=hl, line_length=None):
+                                s = flat(printer.print_thm(th_))
+                            th2 = parser.parse_thm(s)
+                            if th2 != th_ or set(th2.hyps) != set(th_.hyps):
+                                run.violation('property', 'sequent round trip differs (unicode=%s, highlight=%s, pass %d): %s' % (uni, hl, rnd, s[:120]),
+                                              dict(thm=sstr(th_), printed=s, reparsed=sstr(th2), unicode=uni, highlight=hl,
+                                                   printed_before=sstr(th)), key='C07:thm-roundtrip')
+                        for t_ in list(th.hyps) + [th.prop]:
+                            with global_setting(unicode=uni, highlight=hl, line_length=None):
+                                s = flat(printer.print_term(t_))
+                            t2_ = parser.parse_term(s)
+                            if t2_ != t_:
+                                run.violation('property', 'term of a sequent printed after the sequent does not round-trip (unicode=%s, highlight=%s): %s' % (uni, hl, s[:120]),
+                                              dict(term=sstr(t_), printed=s, reparsed=sstr(t2_), printed_before=sstr(th)), key='C07:thm-roundtrip-history')
             # exported proof items, arguments by the signature of the rule
             kind = r.choice(['term', 'term', 'none', 'name', 'tyinst', 'inst', 'name-term'])
             if kind == 'term':
